@@ -57,6 +57,16 @@ def Part.weight : Part → Weighting
   | .dyn _ _ _ _ _ w => w
   | .static _ => ⟨0, [], 0, []⟩
 
+/-- `pre (?P<g>regex) post \Z` against `t`: the literal prefix / suffix and the anchor leave exactly
+one candidate for the group -/
+def matchCore (pre : Str) (kind : RKind) (post : Str) (t : Str) : Option Str :=
+  match stripPrefix? pre t with
+  | none => none
+  | some t1 =>
+    match stripSuffix? post t1 with
+    | none => none
+    | some v => if kind.accepts v then some v else none
+
 /-- `re.compile(part.content).match(target)` for a dynamic part: the converter group and whether the
 slash suffix group of a `suffixed` part captured `/`. Literal prefix/suffix and the `\Z` anchor leave
 exactly one decomposition. -/
@@ -65,13 +75,7 @@ def matchDyn (pre : Str) (kind : RKind) (post : Str) (suffixed : Bool) (target :
   let t := if sl then target.dropLast else target
   -- `(?<!/)` in front of the optional slash
   if suffixed && endsWithChar t '/' then none
-  else
-    match stripPrefix? pre t with
-    | none => none
-    | some t1 =>
-      match stripSuffix? post t1 with
-      | none => none
-      | some v => if kind.accepts v then some (v, sl) else none
+  else (matchCore pre kind post t).map (·, sl)
 
 /-- one transition of `_match` seen from the part: what the part consumes of the remaining path
 segments `parts` (`target`, `remaining`, the `suffixed` slash handling) and the converter groups it
